@@ -138,6 +138,8 @@ func main() {
 	thriftgo := flag.String("thriftgo", "", "thriftgo binary")
 	scopeAll := flag.Bool("scope-all", false, "development: a scope case for every accepted run")
 	skipNs := flag.Bool("skip-ns", false, "development: no namespace cases, no go build")
+	corpusOnly := flag.Bool("corpus-only", false, "development: corpus programs only")
+	allOptsets := flag.Bool("all-optsets", false, "development: the thorough option sets in the quick tier")
 	flag.Parse()
 	if abs, err := filepath.Abs(*out); err == nil {
 		*out = abs
@@ -178,9 +180,11 @@ func main() {
 
 	// Part B
 	progs := corpusPrograms()
-	progs = append(progs, generatedPrograms(r, *tier)...)
+	if !*corpusOnly {
+		progs = append(progs, generatedPrograms(r, *tier)...)
+	}
 	optsets := []string{"go:", "go:naming_style=golint,gen_setter,gen_deep_equal", "go:template=slim", "fastgo:", "go:with_reflection,with_field_mask,keep_unknown_fields", "go:naming_style=apache,json_enum_as_text,frugal_tag", "go:use_type_alias=false"}
-	if *tier == "thorough" {
+	if *tier == "thorough" || *allOptsets {
 		optsets = append(optsets, "go:compatible_names,reorder_fields,nil_safe", "go:value_type_in_container,enum_as_int_32", "go:thrift_streaming,streamx", "go:no_default_serdes,gen_type_meta", "go:snake_style_json_tag,lower_camel_style_json_tag,always_gen_json_tag", "go:enable_nested_struct", "go:validate_set=false,unescape_double_quote,json_stringer", "go:no_processor,skip_empty,code_ref")
 	}
 	work, err := os.MkdirTemp(filepath.Dir(*out), "c01-work-")
